@@ -595,6 +595,9 @@ def run(program, res, tier):
     c16.polars_full_join_keys_rule(program, Relabel(res, {"*": "C03-S5"}), rule="C03-S5")
     c08._s2(program, Relabel(res, {"*": "C03-S6"}))
     c08._s7_record_transform_columns(program, Relabel(res, {"*": "C03-S6"}))
+    from . import c17 as _c17
+    _c17.record_sort_null_position(program, Relabel(res, {"*": "C03-S4"}), rule="C03-S4")
+    _c17._s6_polars_stacking(program, Relabel(res, {"*": "C03-S3"}))
     res.rule("C03-S7", "sibling methods of the two data models agree on returning a value")
     _s7_sibling_returns(program, res)
     from . import c05
